@@ -22,11 +22,11 @@ func runConc(args []string) (map[string]any, error) {
 	tid := 0
 	for i := 0; i < *c.n; i++ {
 		tid++
-		exec.RunConc(w, st, tid, r, false)
+		exec.RunConc(w, st, tid, r, false, i%5 == 4) // every fifth run: one writer on deep keys against one saver
 	}
 	for i := 0; i < *nmiss; i++ {
 		tid++
-		exec.RunConc(w, st, tid, r, true)
+		exec.RunConc(w, st, tid, r, true, false)
 	}
 	if err := w.Close(); err != nil {
 		return nil, err
